@@ -420,7 +420,7 @@ impl Float {
             self.sem,
             self.sign,
             bounds.1,
-            BigInt::all1s(self.get_mantissa_len()),
+            BigInt::all1s(self.sem.get_precision()),
         );
 
         *self = match rm {
